@@ -970,8 +970,15 @@ def json_compat_obj_decode(data_type, obj, caller_permissions=None,
         return decoder.make_stone_friendly(
             data_type, obj, True)
     else:
-        return decoder.json_compat_obj_decode_helper(
+        decoded_obj = decoder.json_compat_obj_decode_helper(
             data_type, obj)
+        if isinstance(data_type, (bv.List, bv.Map, bv.Nullable)):
+            # The fields of a struct and the value of a union are validated
+            # when they are assigned. The items of a top-level list or map
+            # (for example a route argument or an alias) are not assigned to
+            # anything, so validate them here.
+            decoded_obj = data_type.validate(decoded_obj)
+        return decoded_obj
 
 def _strftime(dt, fmt):
     return dt.strftime(fmt)
